@@ -40,7 +40,9 @@ prop("C16", [
 POOL_B = dict(engine="sql", rows_quick=2, rows_thorough=3)
 prop("C01", [
     dict(engine="verus", unit="pool"),
-    dict(POOL_B, checks=["sql_in_use", "allocate_address/C01", "allocate_address/C13"]),
+    # every SQL stub contract the C01 proof rests on: in-use test, the client's own rows (via the C09 checks), and the upsert
+    # (allocate_address/C10: the row written names the requesting client with the reply's window; C13: nothing else changes)
+    dict(POOL_B, checks=["sql_in_use", "select_new_address", "allocate_address/C01", "allocate_address/C09", "allocate_address/C10", "allocate_address/C13"]),
 ], explanation="allocate_address never grants an address on which another client has an unexpired row; lemma over that contract; SQL contracts bounded on real SQLite",
     assumptions=["pool mutex: handlers verified as a single task (true interleaving not modelled)",
                  "wall clock monotone and below 0xF0000000 (Pool::verif_now stub)",
